@@ -1,7 +1,7 @@
 (* C06, stated for the definitions generated from the current source of util/inference_util.py
    (_correct_1d, _dual_bootstrap; gen/Gen_C06.v, re-created on every run). *)
 From Coq Require Import List ZArith QArith Reals.
-From RSA Require Import Prelude Vec InferModel InferProofs.
+From RSA Require Import Prelude Vec PyLib PySquare InferModel InferProofs.
 From RSAGen Require Import Gen_C06.
 From RSATie Require Import Tie_C06.
 Import ListNotations.
@@ -85,6 +85,44 @@ Theorem C06_gen_t_test_nc_antitone : forall (cdf : R -> R) (d1 d2 v nc : R), (fo
   Gen_C06.t_test_nc_entry ROps cdf (nc + d2) v nc (feps ROps) <= Gen_C06.t_test_nc_entry ROps cdf (nc + d1) v nc (feps ROps).
 Proof. exact gen_t_test_nc_antitone. Qed.
 Print Assumptions C06_gen_t_test_nc_antitone.
+
+(* pairwise t-tests, as generated from t_tests (from the vector of pairwise differences on): the matrix of
+   2 * (1 - cdf |difference / sqrt(max(variance, eps))|) in square form; symmetric, 1 on the diagonal, in [0,1]; entry (i,j), i < j,
+   tests the difference stored at the position of the pair (i,j) *)
+Theorem C06_gen_t_tests_is_model : forall (cdf : R -> R) (diffs var : list R),
+  Gen_C06.t_tests ROps cdf diffs var (feps ROps) = np_mmap (p_two cdf) (py_squareform ROps (map2 (tstat ROps) diffs var)).
+Proof. exact t_tests_tie. Qed.
+Print Assumptions C06_gen_t_tests_is_model.
+
+Theorem C06_gen_t_tests_symmetric : forall (cdf : R -> R) (diffs var : list R) i j,
+  let n := py_sq_n (length (map2 (tstat ROps) diffs var)) in let P := Gen_C06.t_tests ROps cdf diffs var (feps ROps) in
+  (i < n)%nat -> (j < n)%nat -> nth j (nth i P []) (p_two cdf 0) = nth i (nth j P []) (p_two cdf 0).
+Proof. exact gen_t_tests_symmetric. Qed.
+Print Assumptions C06_gen_t_tests_symmetric.
+
+Theorem C06_gen_t_tests_diagonal : forall (cdf : R -> R) (diffs var : list R) i,
+  let n := py_sq_n (length (map2 (tstat ROps) diffs var)) in let P := Gen_C06.t_tests ROps cdf diffs var (feps ROps) in
+  (forall x, cdf (- x) = 1 - cdf x) -> (i < n)%nat -> nth i (nth i P []) (p_two cdf 0) = 1.
+Proof. exact gen_t_tests_diagonal. Qed.
+Print Assumptions C06_gen_t_tests_diagonal.
+
+Theorem C06_gen_t_tests_range : forall (cdf : R -> R) (diffs var : list R) i j,
+  let n := py_sq_n (length (map2 (tstat ROps) diffs var)) in let P := Gen_C06.t_tests ROps cdf diffs var (feps ROps) in
+  (forall x y, x <= y -> cdf x <= cdf y) -> (forall x, 0 <= cdf x <= 1) -> (forall x, cdf (- x) = 1 - cdf x) ->
+  (i < n)%nat -> (j < n)%nat -> 0 <= nth j (nth i P []) (p_two cdf 0) <= 1.
+Proof. exact gen_t_tests_range. Qed.
+Print Assumptions C06_gen_t_tests_range.
+
+Theorem C06_gen_t_tests_pair : forall (cdf : R -> R) (diffs var : list R) i j,
+  let T := map2 (tstat ROps) diffs var in let n := py_sq_n (length T) in let P := Gen_C06.t_tests ROps cdf diffs var (feps ROps) in
+  (i < j)%nat -> (j < n)%nat -> nth j (nth i P []) (p_two cdf 0) = p_two cdf (nth (py_sq_pos n i j) T 0).
+Proof. exact gen_t_tests_pair. Qed.
+Print Assumptions C06_gen_t_tests_pair.
+
+(* the square form on the executable instance: three pair values (0,1), (0,2), (1,2) *)
+Example C06_gen_squareform_example :
+  py_squareform QOps [1%Q; 2%Q; 3%Q] = [[0%Q; 1%Q; 2%Q]; [1%Q; 0%Q; 3%Q]; [2%Q; 3%Q; 0%Q]].
+Proof. vm_compute. reflexivity. Qed.
 
 (* non-vacuity on the executable instance: n_rdm = 3, n_pattern = 4, (v0, v1, v2) = (10, 3, 4) *)
 Example C06_gen_example :
